@@ -70,3 +70,40 @@ def open_logix(target, path="192.168.1.10", **kw):
     plc = LogixDriver(path, **kw)
     plc.open()
     return plc
+
+
+import contextlib
+
+
+@contextlib.contextmanager
+def entropy(mode):
+    """The environment owns the library's sources of randomness (os.urandom for connection ids / serials, the `random` module):
+    'min' / 'max' pin them to their extreme values for the duration of a case; 'os' leaves them alone.  Names imported into
+    pycomm3 modules (`from os import urandom`, `from random import randint`) are replaced as well."""
+    if mode in (None, "os"):
+        yield
+        return
+    import os
+    import random
+    import sys
+    lo = mode == "min"
+    stubs = {
+        "urandom": (os.urandom, (lambda n: b"\x00" * n) if lo else (lambda n: b"\xff" * n)),
+        "randint": (random.randint, (lambda a, b: a) if lo else (lambda a, b: b)),
+        "randrange": (random.randrange, (lambda a, b=None, *k: 0 if b is None else a) if lo else (lambda a, b=None, *k: (a - 1) if b is None else (b - 1))),
+        "random": (random.random, (lambda: 0.0) if lo else (lambda: 0.9999999999)),
+        "getrandbits": (random.getrandbits, (lambda k: 0) if lo else (lambda k: (1 << k) - 1)),
+        "choice": (random.choice, (lambda seq: seq[0]) if lo else (lambda seq: seq[-1])),
+    }
+    patched = []
+    try:
+        mods = [m for n, m in list(sys.modules.items()) if n == "pycomm3" or n.startswith("pycomm3.")] + [random]
+        for m in mods:
+            for name, (orig, stub) in stubs.items():
+                if getattr(m, name, None) is orig:
+                    patched.append((m, name, orig))
+                    setattr(m, name, stub)
+        yield
+    finally:
+        for m, name, orig in patched:
+            setattr(m, name, orig)
